@@ -6,4 +6,5 @@ INVARIANT ForwardOK
 INVARIANT ForwardWellFormed
 INVARIANT ForwardGivesTarget
 INVARIANT BackwardGivesShape
+INVARIANT SparseFusedAxes
 CHECK_DEADLOCK FALSE
